@@ -19,7 +19,8 @@ RULE = ("interactions: six neutrino types x energies log-uniform in 1e3..1e12 Ge
         "replaced by a tape of uniforms (random, plus injected values next to 0, 1 and the branch thresholds) and "
         "Poisson integers (nominal and stress mode); cross sections on log energy grids; trees: random "
         "add_children histories up to 40 nodes (chains, stars, bushy), single child passed bare, unknown parent, "
-        "a particle added twice; a case is non-trivial when a draw/branch decision or a non-root node is involved; "
+        "a particle added twice, trees holding value-equal but distinct Particle objects (equal roots, equal siblings, "
+        "equal cousins, all equal); a case is non-trivial when a draw/branch decision or a non-root node is involved; "
         "distinct = distinct request lines")
 LEVEL_TEXT = ("theorems over R: inelasticity ranges of both models, fraction bounds incl. the energy-conservation "
               "acceptance test, NC probability, positivity and strict monotonicity of every cross section from the "
@@ -32,7 +33,10 @@ LEVEL_NOTE = ("floating-point rounding not modelled (rel 1e-9); numpy.random var
               "rounding (oracle tolerance 1e-15); a draw of exactly "
               "0.0 in GQRS (y = 1, lepton energy 0 -> OverflowError in int(log10(0))) is outside the model; "
               "distributional agreement is proved as the inverse-CDF/threshold form (C14_nc_prob measure statement), "
-              "a z-test of the NC fraction only in the thorough search; C14_parent_child_consistent is proved both ways (parent uniqueness from WellFormed.flat); level consistency is proved as the defining recursion of get_from_level")
+              "a z-test of the NC fraction only in the thorough search; particles are identified by OBJECT IDENTITY in the model and in the run - 'distinct particles' in "
+              "C14_iter_nodup_complete / C14_parent_child_consistent means distinct objects, whose values may coincide "
+              "(trees with value-equal twins are part of the exact run and of the oracle); "
+              "C14_parent_child_consistent is proved both ways (parent uniqueness from WellFormed.flat); level consistency is proved as the defining recursion of get_from_level")
 ASSUMPTIONS = ["np.interp / np.linspace / np.random.poisson modelled by their specification",
                "scipy.constants.N_A read from the installed scipy"]
 
@@ -212,7 +216,7 @@ def random_history(rng, nmax, flaws=True):
     return nroots, ops
 
 
-def max_level(nroots, ops):
+def max_level(nroots, ops, vals=None):
     """levels reported: all of them for a proper tree; when a particle was handed over twice the child relation
     can contain cycles and level lists grow geometrically, so only the first few levels are compared"""
     seen, dup = set(range(nroots)), False
@@ -220,13 +224,39 @@ def max_level(nroots, ops):
         for c in cs:
             dup = dup or c in seen
             seen.add(c)
+    # value-equal twins: harmless for the unchanged (identity-based) code, but a value-based lookup would create
+    # the same cycles, so the level queries are bounded there as well
+    if vals is not None and len(set(vals)) < len(vals):
+        dup = True
     return 4 if dup else None
 
 
-def tree_impl(nroots, ops):
+def twin_values(rng, nroots, ops, mode):
+    """value class of every particle id: particles with the same class are distinct objects with identical type,
+    vertex, direction, energy, weights and (deterministic) interaction attributes.  The model - like the unchanged
+    code - identifies particles by object identity, never by value."""
+    nid = max([nroots] + [c + 1 for _, cs, _ in ops for c in cs])
+    if mode == "all_equal":
+        return [0] * nid
+    if mode == "roots_equal":
+        return [0] * nroots + list(range(1, nid - nroots + 1))
+    if mode == "few_classes":
+        m = rng.randint(1, 4)
+        return [rng.randrange(m) for _ in range(nid)]
+    # "cousins": children of different parents share values, first come first
+    vals = list(range(nid))
+    for i in range(nid):
+        if i >= nroots and rng.random() < 0.5:
+            vals[i] = vals[rng.randrange(i)]
+    return vals
+
+
+def tree_impl(nroots, ops, vals=None):
     pp = P()
     nid = max([nroots] + [c + 1 for _, cs, _ in ops for c in cs])
-    ps = [pp.Particle("nu_e", (0, 0, -i), (0, 0, 1), 1e9, interaction_type="cc", interaction_model=pp.Interaction)
+    vals = list(vals) if vals is not None else list(range(nid))
+    vals += list(range(len(vals), nid))
+    ps = [pp.Particle("nu_e", (0, 0, -vals[i]), (0, 0, 1), 1e9, interaction_type="cc", interaction_model=pp.Interaction)
           for i in range(nid)]
     ghost = pp.Particle("nu_e", (0, 0, 1), (0, 0, 1), 1e9, interaction_type="cc", interaction_model=pp.Interaction)
     ident = {id(p): i for i, p in enumerate(ps)}
@@ -240,13 +270,13 @@ def tree_impl(nroots, ops):
     ids = lambda l: "-" if not l else ",".join(str(ident[id(p)]) for p in l)
     ch = " ".join(ids(ev.get_children(p)) for p in allp)
     pa = " ".join("N" if ev.get_parent(p) is None else str(ident[id(ev.get_parent(p))]) for p in allp)
-    ml = max_level(nroots, ops)
+    ml = max_level(nroots, ops, vals)
     lv = " ".join(ids(ev.get_from_level(k)) for k in range((len(allp) + 2) if ml is None else ml + 1))
     return "%s | %s | %s | %s | %d" % (ids(allp), ch, pa, lv, len(ev)), ev, ps
 
 
-def tree_line(nroots, ops):
-    ml = max_level(nroots, ops)
+def tree_line(nroots, ops, vals=None):
+    ml = max_level(nroots, ops, vals)
     return "tree %s %s" % (nroots if ml is None else "%d %d" % (nroots, ml), " ".join("; %d %s" % (par, " ".join(map(str, cs))) for par, cs, _ in ops))
 
 
@@ -285,6 +315,15 @@ def correspondence(run):
         nroots, ops = random_history(run.rng, run.rng.choice([3, 8, 15, 25, 40]))
         impl, _, _ = tree_impl(nroots, ops)
         reqs.append(tree_line(nroots, ops)); checks.append(("tree", (nroots, ops, impl)))
+    # trees holding value-equal but distinct Particle objects (twins as roots, as siblings, under different parents)
+    for i in range(run.scale(80, 800)):
+        nroots, ops = random_history(run.rng, run.rng.choice([3, 6, 12, 25]))
+        if run.rng.random() < 0.5:
+            nroots = max(nroots, 2)
+        vals = twin_values(run.rng, nroots, ops, run.rng.choice(["all_equal", "roots_equal", "few_classes", "cousins"]))
+        impl, _, _ = tree_impl(nroots, ops, vals)
+        run.count("tree_with_value_equal_twins")
+        reqs.append(tree_line(nroots, ops, vals)); checks.append(("tree", (nroots, ops, impl)))
 
     replies = fw.run_driver("C14", reqs)
     for rq, (op, arg), rp in zip(reqs, checks, replies):
@@ -477,10 +516,10 @@ def check_grid(run, model, anti, Es):
                 break
 
 
-def check_tree(run, nroots, ops):
-    """consistency of one well-formed history (distinct particles, known parents)"""
-    impl, ev, ps = tree_impl(nroots, ops)
-    inp = {"nroots": nroots, "ops": [[p, cs, b] for p, cs, b in ops]}
+def check_tree(run, nroots, ops, vals=None):
+    """consistency of one well-formed history (distinct particle OBJECTS - their values may coincide -, known parents)"""
+    impl, ev, ps = tree_impl(nroots, ops, vals)
+    inp = {"nroots": nroots, "ops": [[p, cs, b] for p, cs, b in ops], "values": list(vals) if vals is not None else None}
     if impl.startswith("error"):
         run.fail_input("tree", inp, observed=impl, what="add_children raised on a well-formed history")
         return
@@ -559,6 +598,16 @@ def search(run, deep):
             check_grid(run, model, anti, Es)
     for i in range(400 if deep else 40):
         nroots, ops = random_history(rng, rng.choice([5, 12, 25, 40]), flaws=False)
+        if i % 2 == 1:          # every other history holds value-equal twins
+            if rng.random() < 0.5:
+                extra = max(0, 2 - nroots)
+                ops = [(p + extra, [c + extra for c in cs], b) for p, cs, b in ops]
+                nroots += extra
+            vals = twin_values(rng, nroots, ops, rng.choice(["all_equal", "roots_equal", "few_classes", "cousins"]))
+            run.case(("oracle-tree-twins", nroots, str(ops), tuple(vals)))
+            run.count("oracle_tree_twins")
+            check_tree(run, nroots, ops, vals)
+            continue
         run.case(("oracle-tree", nroots, str(ops)))
         check_tree(run, nroots, ops)
     if run.thorough():
@@ -613,6 +662,6 @@ def replay(run, data):
         E = i["E"]
         check_grid(run, i["model"], i["anti"], E if len(E) > 1 else [E[0], E[0] * 1.01])
     elif k == "tree":
-        check_tree(run, i["nroots"], [(p, cs, b) for p, cs, b in i["ops"]])
+        check_tree(run, i["nroots"], [(p, cs, b) for p, cs, b in i["ops"]], i.get("values"))
     else:
         search(run, True)
